@@ -142,12 +142,14 @@ def rule_insert_remove(ctx, prog, eff):
     b = prog.one(adt=MM, name="remove_region")
     okr = False
     detail = ""
-    for pos, t in b.return_terms():
-        t = deep_strip(t)
+    from .. import outcomes
+    outs = outcomes.outcomes(prog, eff, b)      # the same table for the if-let / match / combinator-chain forms
+    for o in outs:
+        pos, t = o[0], deep_strip(o[1])
         if t[0] == 'agg' and t[2] == 'Ok':
             e = {}
             shape = match(AGG("Result", "Ok", TUP(AGG(MM, None, V("vec")), C("Vec::remove", V("vec"), V("idx")))), t, e)
-            facts = b.facts_at(pos)
+            facts = outcomes.facts_of(b, o)
             search_ok = False
             size_ok = False
             if shape:
@@ -168,7 +170,7 @@ def rule_insert_remove(ctx, prog, eff):
             else:
                 detail = f"Ok value `{tstr(t)}` is not (Self {{ v }}, v.remove(i)) over one vector"
     ctx.ob("R10.3.remove", b.key, okr, b.where(), detail)
-    errs = [unref(deep_strip(t)[3][0])[2] for _p, t in b.return_terms() if deep_strip(t)[0] == 'agg' and deep_strip(t)[2] == 'Err']
+    errs = [unref(deep_strip(o[1])[3][0])[2] for o in outs if deep_strip(o[1])[0] == 'agg' and deep_strip(o[1])[2] == 'Err' and unref(deep_strip(o[1])[3][0])[0] == 'agg']
     ctx.ob("R10.3.remove_error", b.key, bool(errs) and set(errs) == {"InvalidGuestRegion"}, b.where(), f"failure variants: {errs} (every failing path reports InvalidGuestRegion)")
     sig = b.j.get("sig", "")
     ctx.ob("R10.4.receiver", b.key, re.search(r"fn\(&('\w+ )?mmap::GuestMemoryMmap", sig) is not None, b.where(), f"receiver must be &self")
